@@ -24,6 +24,7 @@ CONFIGS = {
     "neg_prec": ([[-3.0, -1.0], [0.1, 1.0]], [{}, {"precision": 1e-3}]),
     "tiny_huge": ([[0.0, 1e-9], [-1e12, 1e12]], [{}, {}]),
     "far_prec": ([[1e6, 1e6 + 1.0], [0.0, 1.0]], [{"precision": 1e-1}, {"precision": 1e-3}]),
+    "offgrid": ([[0.0, 1.6], [0.0, 0.37]], [{"precision": 0.5}, {"precision": 0.05}]),
 }
 
 
